@@ -3,8 +3,8 @@
    (A) collect-and-sort:   for k := range m { s = append(s, k) }  immediately followed by  sort.Strings(s)
        - the loop yields the key set in some order, sort.Strings (a total order on strings) makes the
          result a function of the key set alone;
-   (B) the bind fill loop of writeToSQLString:
-         for name, idx := range sb.namedArgs { v, ok := supplied[name]; if !ok { return ... }; args[idx-1] = v }
+   (B) the bind fill loop (in writeToSQLString or a helper of it, whatever its variables are called):
+         for name, idx := range <map> { v, ok := <map>[name]; if !ok { return ... }; <slice>[idx-1] = v }
        - the loop [fill] of Model/W.v, proved independent of the order (C04_order / C10_map_order).
    Anything else that ranges over a map is rejected. *)
 From Coq Require Import String List Bool.
@@ -38,10 +38,12 @@ Definition collect_sort (s : gstmt) (next : option gstmt) : bool :=
 (* (B) *)
 Definition fill_loop (s : gstmt) : bool :=
   match s with
-  | GRange (Some (GIdent name _ _)) (Some (GIdent idx _ _)) _ (GSel (GIdent _ _ _) "namedArgs" _)
-      [GAssign [GIdent v _ _; GIdent ok _ _] ":=" [GIndex (GIdent _ "map" "param") key _];
+  | GRange (Some (GIdent name _ _)) (Some (GIdent idx _ _)) _ _
+      [GAssign [GIdent v _ _; GIdent ok _ _] ":=" [GIndex supplied key _];
        GIf [] (GUn "!" okc) [GReturn _] [];
-       GAssign [GIndex (GIdent _ "slice" _) (GBin "-" ix (GLit "INT" "1")) _] "=" [val]] =>
+       GAssign [GIndex target (GBin "-" ix (GLit "INT" "1")) _] "=" [val]] =>
+      (* whatever the map, the supplied map and the slot slice are called and wherever the loop lives *)
+      is_map supplied && String.eqb (kind_of target) "slice" &&
       ident_named key name && ident_named okc ok && ident_named ix idx && ident_named val v
   | _ => false
   end.
@@ -67,7 +69,7 @@ Fixpoint stmts_ok (fuel : nat) (allow_fill : bool) (l : list gstmt) : bool :=
   end.
 
 Definition fn_map_order_ok (f : gfunc) : bool :=
-  stmts_ok 60 (String.eqb (fn_name f) "writeToSQLString" && String.eqb (fn_recv f) "") (fn_body f).
+  stmts_ok 60 true (fn_body f).
 
 Definition map_order_ok (fs : list gfunc) : bool :=
   forallb (fun f => negb (analysed_pkg f) || fn_map_order_ok f) fs.
